@@ -1287,7 +1287,7 @@ package connect
 // every metadata value is appended under its key.
 //@ macro reservedGRPC(k seq) bool = k == "Grpc-Status" || k == "Grpc-Message" || k == "Grpc-Status-Details-Bin"
 //@ func grpcErrorToTrailer(bufferPool, trailer, protobuf, err)
-//@   tags C02, C05
+//@   tags C02, C05, C11
 //@   requires bufferPool != nil && trailer != nil && protobuf != nil
 //@   requires err != nil && coded(err) ==> asErr(err).meta != trailer
 //@   nosafety truncation
@@ -1704,7 +1704,7 @@ package connect
 //@   pure
 //@ func NewUnaryHandler$2(ctx, conn) err
 //@   anchor "implementation := func("
-//@   tags C12, C11, C07
+//@   tags C12, C11, C07, C05
 //@   assert@call(NewUnaryHandler$2.untyped#1): ended(conn)   // label: user-code-runs-only-when-the-request-is-exactly-one-message   // tags: C07
 //@   requires conn != nil && deref(untyped) != nil
 //@   assigns everything
@@ -1718,7 +1718,7 @@ package connect
 //@   ensures err == nil ==> res != nil
 //@ func NewClientStreamHandler$1(ctx, conn) err
 //@   anchor "func(ctx context.Context, conn StreamingHandlerConn) error {"
-//@   tags C12, C11
+//@   tags C12, C11, C05
 //@   requires conn != nil && deref(implementation) != nil
 //@   assigns everything
 //@   assert@call(NewClientStreamHandler$1.implementation#1): arg1 != nil && arg1.conn == conn   // label: user-code-gets-the-connection
